@@ -39,11 +39,12 @@ extern "C" void stub_str_destroy(std::string *, size_t) { VASSERT(false, "bound:
 
 // ---- std::string special members and comparison, for strings of at most one character held in the SSO buffer
 static void sso_take(std::string * d, std::string const * s) {
-    VASSERT(s->_M_string_length <= 1 && s->_M_dataplus._M_p == s->_M_local_buf, "bound: one-character strings in the SSO buffer");
+    size_t n = s->_M_string_length; char c = s->_M_local_buf[0];
+    VASSERT(n <= 1, "bound: one-character strings in the SSO buffer");
     d->_M_dataplus._M_p = d->_M_local_buf;
-    d->_M_local_buf[0] = s->_M_local_buf[0];
+    d->_M_local_buf[0] = c;
     d->_M_local_buf[1] = 0;
-    d->_M_string_length = s->_M_string_length;
+    d->_M_string_length = n;
 }
 static void sso_clear(std::string * s) { s->_M_string_length = 0; s->_M_local_buf[0] = 0; }
 extern "C" void stub_str_copy_ctor(std::string * self, std::string const & o) { sso_take(self, &o); }
@@ -68,6 +69,52 @@ extern "C" VIt stub_find_if(VIt first, VIt last, __gnu_cxx::__ops::_Iter_equals_
     return last;
 }
 
+// ---- the mutators of the three std::vector instances are fixed-capacity models (push_back, erase); the vector objects
+// keep libstdc++'s layout (start / finish / end-of-storage), so begin/end/size/empty/front/back/pop_back/data stay real code.
+union RawStr { char raw; std::string s; constexpr RawStr() : raw(0) {} ~RawStr() {} };     // constant-initialised, no constructor runs
+using NamePair = opensmt::pair<TermName, PTRef>;
+union RawPair { char raw; NamePair p; constexpr RawPair() : raw(0) {} ~RawPair() {} };
+#define VCAP 2      // two names exist: at most 2 names per term, at most 2 (name, term) pairs
+#define LCAP 3      // at most 3 open scopes
+static RawStr str_buf_t0[VCAP], str_buf_t1[VCAP];
+static RawPair pair_buf[VCAP];
+static unsigned uns_buf[LCAP];
+static void * term_vector_address(int j);
+using StrVec = std::vector<std::string>;
+using PairVec = std::vector<NamePair>;
+using UnsVec = std::vector<unsigned>;
+extern "C" void stub_strvec_push_back(StrVec * v, std::string const & x) {
+    if (v->_M_impl._M_start == nullptr) {
+        int t = (void *)v == term_vector_address(1) ? 1 : 0;
+        VASSERT((void *)v == term_vector_address(t), "only the name vectors of the two terms hold strings");
+        std::string * b = t == 0 ? &str_buf_t0[0].s : &str_buf_t1[0].s;
+        v->_M_impl._M_start = v->_M_impl._M_finish = b; v->_M_impl._M_end_of_storage = b + VCAP;
+    }
+    VASSERT(v->_M_impl._M_finish != v->_M_impl._M_end_of_storage, "bound: at most 2 names per term");
+    sso_take(v->_M_impl._M_finish, &x);
+    ++v->_M_impl._M_finish;
+}
+extern "C" StrVec::iterator stub_strvec_erase(StrVec * v, StrVec::iterator pos) {
+    std::string * p = &*pos;
+    VASSERT(p != v->_M_impl._M_finish, "erase() is given an element, not end()  [std::find found the name]");
+    for (int k = 0; k < VCAP; k++) { if (p + 1 == v->_M_impl._M_finish || p == v->_M_impl._M_finish) break; sso_take(p, p + 1); ++p; }
+    if (v->_M_impl._M_finish != v->_M_impl._M_start) --v->_M_impl._M_finish;
+    return pos;
+}
+extern "C" void stub_pairvec_push_back(PairVec * v, NamePair const & x) {
+    if (v->_M_impl._M_start == nullptr) { NamePair * b = &pair_buf[0].p; v->_M_impl._M_start = v->_M_impl._M_finish = b; v->_M_impl._M_end_of_storage = b + VCAP; }
+    VASSERT(v->_M_impl._M_finish != v->_M_impl._M_end_of_storage, "bound: at most 2 (name, term) pairs");
+    sso_take(&v->_M_impl._M_finish->first, &x.first);
+    v->_M_impl._M_finish->second = x.second;
+    ++v->_M_impl._M_finish;
+}
+extern "C" void stub_unsvec_push_back(UnsVec * v, unsigned const & x) {
+    if (v->_M_impl._M_start == nullptr) { v->_M_impl._M_start = v->_M_impl._M_finish = &uns_buf[0]; v->_M_impl._M_end_of_storage = &uns_buf[0] + LCAP; }
+    VASSERT(v->_M_impl._M_finish != v->_M_impl._M_end_of_storage, "bound: at most 3 open scopes");
+    *v->_M_impl._M_finish = x;
+    ++v->_M_impl._M_finish;
+}
+
 static bool global_mode;
 extern "C" bool stub_decl_global(SMTConfig const *) { return global_mode; }
 
@@ -82,6 +129,8 @@ static TNode tnodes[NT]; static bool tpresent[NT];
 static bool foreign_key;
 static int nidx(TermName const & k) { char c = k.data()[0]; if (c == 'a') return 0; if (c == 'b') return 1; foreign_key = true; return 0; }
 static int tidx(PTRef t) { if (t.x == 1) return 0; if (t.x == 2) return 1; return -1; }     // other terms are never named
+
+static void * term_vector_address(int j) { return (void *)&tnodes[j]._M_valptr()->second; }
 
 extern "C" NMap::iterator stub_n_find(NMap *, TermName const & k) { int i = nidx(k); return NMap::iterator(npresent[i] ? &nnodes[i] : nullptr); }
 extern "C" NMap::iterator stub_n_end(NMap *) { return NMap::iterator(nullptr); }
@@ -113,7 +162,12 @@ extern "C" bool stub_t_contains(TMap const *, PTRef const & k) { int i = tidx(k)
 extern "C" std::vector<TermName> & stub_t_index(TMap *, PTRef const & k) {
     int i = tidx(k);
     if (i < 0) { foreign_key = true; i = 0; }
-    if (!tpresent[i]) { ::new ((void *)tnodes[i]._M_valptr()) TMap::value_type(k, std::vector<TermName>{}); tpresent[i] = true; }
+    if (!tpresent[i]) {
+        const_cast<PTRef &>(tnodes[i]._M_valptr()->first) = k;
+        StrVec & v = tnodes[i]._M_valptr()->second;     // a fresh, empty vector
+        v._M_impl._M_start = v._M_impl._M_finish = v._M_impl._M_end_of_storage = nullptr;
+        tpresent[i] = true;
+    }
     return tnodes[i]._M_valptr()->second;
 }
 extern "C" std::vector<TermName> const & stub_t_at(TMap const *, PTRef const & k) {
@@ -125,7 +179,8 @@ extern "C" std::vector<TermName> const & stub_t_at(TMap const *, PTRef const & k
 extern "C" size_t stub_t_erase_key(TMap *, PTRef const & k) {
     int i = tidx(k);
     if (i < 0 || !tpresent[i]) return 0;
-    tnodes[i]._M_valptr()->~pair();
+    StrVec & v = tnodes[i]._M_valptr()->second;     // the map destroys the value: the model forgets the buffer
+    v._M_impl._M_start = v._M_impl._M_finish = v._M_impl._M_end_of_storage = nullptr;
     tpresent[i] = false;
     return 1;
 }
